@@ -25,6 +25,8 @@ func init() {
 			c06R1(c, "C07.R7") // every page of a run is written where its id says (else the run's pages are neither reachable nor free)
 			rulePageCapacity(c, "C07.R8")
 			ruleInlineNoNested(c, "C07.R9")
+			ruleFreeSetEntry(c, "C07.R10") // "both free and in use": a page enters the free set only through the release path
+			ruleKeyOrderPredicates(c, "C07.R11") // "keys are ordered within and across pages": insertion and search positions come from lower-bound predicates over bytes.Compare
 		},
 	})
 }
